@@ -164,6 +164,48 @@ def check_system(spec, W, viol, scripts=True, evals=None):
         enumerate_scripts(lambda s: audit(s), max_paths=25, max_depth=6)
     else:
         audit(None)
+    # several iterations of ONE system object alive at the same time (consumed alternately, and one nested inside another): the accumulated mass belongs
+    # to the iteration, so each of them separately yields up to the system mass
+    def own_total(mols):
+        tot, before_last = 0.0, 0.0
+        for mg in mols:
+            before_last = tot
+            tot += rdDescriptors.HeavyAtomMolWt(mg._mol)
+        return tot, before_last
+    fget, olddef = with_rng(sysm, np.random.default_rng(17))
+    try:
+        with warnings.catch_warnings():
+            warnings.simplefilter("ignore")
+            a, b = [], []
+            ita, itb = sysm.generator, sysm.generator
+            live = [(ita, a), (itb, b)]
+            while live and len(a) + len(b) < 800:
+                for it, acc in list(live):
+                    try:
+                        acc.append(next(it))
+                    except StopIteration:
+                        live.remove((it, acc))
+            outer, inner_runs = [], []
+            for k, mg in enumerate(sysm.generator):
+                outer.append(mg)
+                if k < 2:
+                    inner_runs.append(list(itertools.islice(sysm.generator, 400)))
+                if k > 400:
+                    break
+        n_eval += 1
+        for name, mols in [("alternating-1", a), ("alternating-2", b), ("outer", outer)] + [(f"nested-{i}", r) for i, r in enumerate(inner_runs)]:
+            tot, before = own_total(mols)
+            if tot < target or (mols and before >= target):
+                viol.append({"key": "C13/System.generator/post[each-live-iteration-has-its-own-accumulated-mass]",
+                             "clause": "iteration stops exactly at the first molecule that brings ITS accumulated mass to the system mass or beyond, also while other iterations of the same system are alive",
+                             "detail": {"iteration": name, "accumulated": tot, "before_last": before, "system_mass": target, "molecules": len(mols)}, "input": inp})
+                break
+    except Exception as e:
+        if harness.raised_in_checker(e):
+            raise
+        viol.append({"key": f"C13/System.generator/safe[{type(e).__name__}]", "clause": "iterating a generable system yields molecules", "detail": {"error": str(e)[:100], "mode": "several live iterations"}, "input": inp})
+    finally:
+        fget.__defaults__ = olddef
     # single-molecule generation
     rng = RecordingRng(seed=11)
     aud = Audit().install()
